@@ -399,6 +399,12 @@ impl Keyring {
             return false;
         }
 
+        // The parser removes every tab from a line, so a name containing
+        // one could not be read back from the keyring.
+        if name.contains('\t') {
+            return false;
+        }
+
         true
     }
 }
